@@ -98,6 +98,9 @@ impl Findings {
     }
 
     pub fn gate_closed(&self, prop: &str, gate: &str) -> bool {
+        if dev_gates().iter().any(|g| g == gate) {
+            return true;
+        }
         self.list
             .iter()
             .any(|f| !f.fixed && f.property == prop && f.gate.as_deref() == Some(gate))
@@ -109,6 +112,7 @@ impl Findings {
             .iter()
             .filter(|f| !f.fixed && f.property == prop)
             .filter_map(|f| f.gate.clone())
+            .chain(dev_gates())
             .collect();
         v.sort();
         v.dedup();
@@ -139,4 +143,10 @@ pub fn glob(pat: &str, text: &str) -> bool {
         }
     }
     true
+}
+
+/// VERIF_DEV_GATES=a,b : development aid (closes extra gates while triaging); never set by
+/// the registered commands.
+fn dev_gates() -> Vec<String> {
+    std::env::var("VERIF_DEV_GATES").map(|v| v.split(',').filter(|s| !s.is_empty()).map(|s| s.to_string()).collect()).unwrap_or_default()
 }
